@@ -503,13 +503,16 @@ fn malformed_cases(tier: Tier) -> Vec<BytesCase> {
     v
 }
 
+/// "never a hang": seconds after which one decoder call (one case) counts as hanging
+const DEADLINE: u64 = 30;
+
 pub fn run(ctx: &Ctx) {
     let infos = info_cases(ctx.tier);
-    sweep_list(ctx, "node_info_roundtrip", &infos, SweepOpts { trivial_classes: vec![0], ..Default::default() }, run_info);
-    sweep_list(ctx, "init_roundtrip", &init_cases(), SweepOpts::default(), run_init);
-    sweep_list(ctx, "rotation_roundtrip", &rot_cases(), SweepOpts::default(), run_rot);
+    sweep_list(ctx, "node_info_roundtrip", &infos, SweepOpts { trivial_classes: vec![0], deadline_secs: Some(DEADLINE), ..Default::default() }, run_info);
+    sweep_list(ctx, "init_roundtrip", &init_cases(), SweepOpts { deadline_secs: Some(DEADLINE), ..Default::default() }, run_init);
+    sweep_list(ctx, "rotation_roundtrip", &rot_cases(), SweepOpts { deadline_secs: Some(DEADLINE), ..Default::default() }, run_rot);
     let mal = malformed_cases(ctx.tier);
-    sweep_list(ctx, "malformed", &mal, SweepOpts { chunk: 16, ..Default::default() }, run_bytes);
+    sweep_list(ctx, "malformed", &mal, SweepOpts { chunk: 16, deadline_secs: Some(DEADLINE), ..Default::default() }, run_bytes);
     // all short strings, 3 decoders, with and without tail; for init the strings follow a VALID key-hash prefix
     let maxlen = ctx.tier.pick(2u32, 3u32);
     let per: u64 = (0..=maxlen).map(|l| 256u64.pow(l)).sum();
@@ -520,7 +523,7 @@ pub fn run(ctx: &Ctx) {
         ctx,
         "short_strings",
         per * 3 * 2,
-        SweepOpts { chunk: 512, ..Default::default() },
+        SweepOpts { chunk: 512, deadline_secs: Some(DEADLINE), ..Default::default() },
         |i| {
             let dec = ["node_info", "init", "rotation"][(i % 3) as usize];
             let tail = if (i / 3) % 2 == 0 { None } else { Some(0xa5u8) };
